@@ -179,8 +179,14 @@ def form_function(ch, u):
 def form_method_impl(ch, u):
     from cxxheaderparser.types import Method, PQName, NameSpecifier, Type, FundamentalSpecifier
 
-    k = ch.pick(5)
+    k = ch.pick(7)
     void = Type(PQName([FundamentalSpecifier("void")]))
+    if k == 5:
+        from cxxheaderparser.types import Parameter
+
+        return (f"lib::O{u}::In::In(int v) {{ }}", [("method_impls", Method(None, pq("lib", f"O{u}", "In", "In"), [Parameter(T_int(), "v")], constructor=True, has_body=True))], {})
+    if k == 6:
+        return f"lib::O{u}::In::~In() {{ }}", [("method_impls", Method(None, pq("lib", f"O{u}", "In", "~In"), [], destructor=True, has_body=True))], {}
     if k == 4:
         # two template headers as written; the invented parameter of the abbreviated (`auto`) parameter belongs to the innermost one
         from cxxheaderparser.types import (AutoSpecifier, Parameter, Reference, TemplateArgument, TemplateDecl, TemplateNonTypeParam, TemplateSpecialization,
